@@ -42,7 +42,7 @@ def probe_real(i, c, n):
 
 
 def make_pass(kind):
-    if kind == 'lines':
+    if kind in ('lines', 'lines-nonl'):
         from cvise.passes.lines import LinesPass
         return LinesPass('None', {})
     from cvise.passes.line_markers import LineMarkersPass
@@ -52,13 +52,15 @@ def make_pass(kind):
 def content(kind, ids):
     if kind == 'lines':
         return ''.join(f'L{i}\n' for i in ids)
+    if kind == 'lines-nonl':      # the last line is not newline-terminated
+        return '\n'.join(f'L{i}' for i in ids)
     return 'head\n' + ''.join(f'# {i + 1}\nx{i}\n' for i in ids)
 
 
 def present(kind, data):
     ids = []
     for line in data.decode().split('\n'):
-        if kind == 'lines' and line.startswith('L'):
+        if kind in ('lines', 'lines-nonl') and line.startswith('L'):
             ids.append(int(line[1:]))
         if kind == 'markers' and line.startswith('# '):
             ids.append(int(line[2:]) - 1)
@@ -169,8 +171,8 @@ def explore(ctx):
     ctx.sample({'probe': cases[len(cases) // 2][0], 'impl_output': cases[len(cases) // 2][1][:12]})
     # B. monotone runs on the real passes, C. random verdict sequences
     cases_mono, cases_seq = [], []
-    for kind in ('lines', 'markers'):
-        for n in range(0, nsub + 1):
+    for kind in ('lines', 'markers', 'lines-nonl'):
+        for n in range(0, nsub + 1 if kind != 'lines-nonl' else min(nsub, 6) + 1):
             for r in range(0, n + 1):
                 for req in itertools.combinations(range(n), r):
                     do_case(ctx, kind, n, 'mono', req, cases_mono, cases_seq)
@@ -184,6 +186,22 @@ def explore(ctx):
             bits = [rnd.random() < pa for _ in range((n + 1) * (n + 2))]
             # trim trailing bits that cannot matter to keep the literal small
             do_case(ctx, kind, n, 'seq', bits[: 6 * n + 12], cases_mono, cases_seq)
+    # the clang_delta binary-search pass shares the cursor: drive it against the stand-in tool
+    from props import c15
+    for n in range(1, 6 if ctx.quick() else 8):
+        for r in range(0, n + 1):
+            for req in itertools.combinations(range(n), r):
+                steps, final, reason, log, _ = c15.run_bin(ctx, n, 'mono', req)
+                ctx.evaluations += 1
+                ctx.count(f'clangbinarysearch:mono:n={n}')
+                ctx.nontriv(('clang', n, req))
+                why = c15.oracle_bin(ctx, n, 'mono', req, steps, final, log, {}, None)
+                if why:
+                    ctx.violation('binary-clang-mono', f'clangbinarysearch N={n} required {req}: {why}', {'kind': 'clang', 'n': n, 'mode': 'mono', 'param': list(req)})
+                out = [len(final)] + final
+                for s in steps:
+                    out += [s.state_repr[0], s.state_repr[1], s.state_repr[2], 1 if s.accepted else 0]
+                cases_mono.append((f'({n}, {coq.lst([str(x) for x in sorted(req)]) if req else "(@nil nat)"})', out, ('clang', n, 'mono', list(req))))
     for nm, fn, cs in (('c06mono', 'mono_run', cases_mono), ('c06seq', 'seq_run', cases_seq)):
         bad = coq.corr_eval(nm, imports, fn, [(a, b) for a, b, _ in cs], shard=400)
         ctx.corr_cases += len(cs)
@@ -203,6 +221,13 @@ def enc_create(n):
 
 def replay(ctx, payload):
     r = payload['replay']
+    if r['kind'] == 'clang':
+        from props import c15
+        steps, final, reason, log, _ = c15.run_bin(ctx, r['n'], 'mono', r['param'])
+        why = c15.oracle_bin(ctx, r['n'], 'mono', r['param'], steps, final, log, {}, None)
+        if why:
+            ctx.violation('binary-clang-mono', why, r)
+        return
     final, log, reason = run_impl_mode(ctx, r['kind'], r['n'], r['mode'], r['param'])
     why = oracle(ctx, r['kind'], r['n'], r['mode'], r['param'], final, log)
     print(f'replay: final={final} log={log}')
